@@ -50,6 +50,24 @@ template <size_t K> struct IO<RecInt::rint<K> > {
     static std::string show(const RecInt::rint<K>& x) { Integer z(x); std::ostringstream o; o << z; return o.str(); }
 };
 
+// ---------------------------------------------------------------- how the ring object is obtained
+// ""      Ring F(p)
+// "copy"  Ring G(p); Ring F(G);            (G destroyed before F is used)
+// "asg"   Ring G(p); Ring F(q), q != p; F = G;      (assignment over a ring of ANOTHER modulus)
+// "asgd"  Ring G(p); Ring F; F = G;                 (assignment over a default-constructed ring)
+static std::string g_mode;
+template <class Ring, class R> static std::unique_ptr<Ring> obtain(const R& p, const R& other) {
+    if (g_mode == "") return std::unique_ptr<Ring>(new Ring(p));
+    std::unique_ptr<Ring> F;
+    {
+        Ring G(p);
+        if (g_mode == "copy") F.reset(new Ring(G));
+        else if (g_mode == "asg") { F.reset(new Ring(other)); *F = G; }
+        else { F.reset(new Ring()); *F = G; }
+    }
+    return F;
+}
+
 // ---------------------------------------------------------------- generic runner
 template <class Ring> struct Precomp {   // rings without mul_precomp_*
     static bool run(const Ring&, const std::string&, const Args&, std::string&) { return false; }
@@ -86,7 +104,9 @@ template <class Ring> struct Run {
         static std::unique_ptr<Ring> cur; static std::string curp;
         if (op == "info") return info();
         if (op == "gcdext") { std::string o; if (Precomp<Ring>::gcd(op, a, o)) return o; return "UNSUPPORTED"; }
-        if (!cur || curp != ps) { cur.reset(new Ring(IO<R>::parse(ps))); curp = ps; }
+        if (!cur || curp != ps + "@" + g_mode) {
+            cur = obtain<Ring, R>(IO<R>::parse(ps), IO<R>::parse(ps == "3" ? "5" : "3")); curp = ps + "@" + g_mode;
+        }
         const Ring& F = *cur;
         E x, y, z, r; F.init(x); F.init(y); F.init(z); F.init(r);
         if (a.size() > 0) x = IO<E>::parse(a[0]);
@@ -128,7 +148,9 @@ template <> struct Run<Modular<Log16> > {
     static std::string go(const std::string& ps, const std::string& op, const Args& a) {
         static std::unique_ptr<Ring> cur; static std::string curp;
         if (op == "info") { std::ostringstream o; o << Ring::minCardinality() << " " << Ring::maxCardinality(); return o.str(); }
-        if (!cur || curp != ps) { cur.reset(new Ring((Ring::Residu_t) strtoul(ps.c_str(), 0, 10))); curp = ps; }
+        if (!cur || curp != ps + "@" + g_mode) {
+            cur = obtain<Ring, Ring::Residu_t>((Ring::Residu_t) strtoul(ps.c_str(), 0, 10), (Ring::Residu_t) (ps == "3" ? 5 : 3)); curp = ps + "@" + g_mode;
+        }
         const Ring& F = *cur;
         E x, y, z, r; F.init(x); F.init(y); F.init(z); F.init(r);
         if (a.size() > 0) F.init(x, (int32_t) strtol(a[0].c_str(), 0, 10));
@@ -200,6 +222,9 @@ int main() {
         std::string ring, p, op, t; is >> ring >> p >> op;
         if (!is) continue;
         Args a; while (is >> t) a.push_back(t);
+        size_t at = ring.find('@');
+        g_mode = (at == std::string::npos) ? "" : ring.substr(at + 1);
+        if (at != std::string::npos) ring = ring.substr(0, at);
         std::map<std::string, Fn>::iterator it = table.find(ring);
         if (it == table.end()) { std::cout << "UNKNOWN-RING\n"; continue; }
         std::cout << it->second(p, op, a) << "\n";
